@@ -12,6 +12,7 @@ CONSTANTS
 CONSTRAINT DepthBound
 VIEW vw
 INVARIANT TypeOK
+INVARIANT DirtyOnlyInRW
 INVARIANT ReopenEqualsLive
 INVARIANT LinksToNodes
 INVARIANT OneParent
@@ -21,6 +22,7 @@ INVARIANT NoDanglingPG
 INVARIANT RegistryMatchesMemory
 PROPERTY Footprint
 PROPERTY FrozenFile
+PROPERTY OptStaysStripped
 INVARIANT ExportState
 ACTION_CONSTRAINT ExportTrans
 CHECK_DEADLOCK FALSE
